@@ -81,6 +81,24 @@ fn invalid_sign<'a>(input: ParserInput<'a>, operator: Operator) -> InternalParse
     )
 }
 
+/// Parse an immediate complex value that may be preceded by `-`, which is how a negative value
+/// is written out.
+pub(crate) fn parse_signed_immediate_value<'a>(
+    input: ParserInput<'a>,
+) -> InternalParserResult<'a, num_complex::Complex64> {
+    map_res(
+        tuple((
+            opt(token!(Operator(o))),
+            super::expression::parse_immediate_value,
+        )),
+        |(sign, value)| match sign {
+            None => Ok(value),
+            Some(Operator::Minus) => Ok(-value),
+            Some(other) => Err(invalid_sign(input, other)),
+        },
+    )(input)
+}
+
 /// Parse the operand of an arithmetic instruction, which may be a literal integer, literal real
 /// number, or memory reference.
 pub(crate) fn parse_arithmetic_operand<'a>(
